@@ -325,6 +325,39 @@ def run_walk(acc, root, price, qty, steps, maxlen):
              sample={"root": root, "trace": [list(a) for a in w.trace][:25]} if nt and len(acc.samples) < 6 and w.n_req >= 2 else None)
 
 
+def long_chain(acc):
+    """One order replaced / reject-ed many times in a row: the ClOrdID suffix crosses --9 -> --10 (and the exchange's ExecIDs
+    cross digit counts), some requests rejected, a partial fill in between."""
+    for root, reject_every in (("ord", 0), ("a--", 4), ("x--y--z", 3)):
+        w = World(root, 100, 10.0)
+        case = {"long_chain": root, "reject_every": reject_every}
+
+        def bad(sig, detail, w=w, case=case):
+            acc.violation("C17:" + sig, detail + f" | root={w.root!r} long chain, {w.n_req} requests, trace tail={w.trace[-8:]}", case)
+        guard = 0
+        filled = False
+        while w.n_req < 14 and not w.dead and guard < 600:
+            guard += 1
+            acts = enabled(w)
+            if not acts:
+                break
+            pick = None
+            for pref in (("deliver",), ("consume", "ack"), ("consume", "reject") if reject_every and w.n_req % reject_every == 0 else ("consume", "accept"), ("consume", "accept"),
+                         ("ex", "decide_accept"), ("ex", "decide_reject") if False else ("ex", "ack_new"), ("client_new",),
+                         ("client_replace", "px") if w.n_req % 3 else ("client_replace", "qty-up")):
+                if pref in acts:
+                    pick = pref
+                    break
+            if pick is None:
+                pick = acts[0]
+            apply(w, pick, bad, frac=0.1, newpx=100.0 + w.n_req, newqty=10.0 + w.n_req)
+            if w.n_req == 7 and not filled and ("ex", "fill_part") in enabled(w):
+                filled = True
+                apply(w, ("ex", "fill_part"), bad, frac=0.1)
+        close_and_judge(w, bad)
+        acc.case(("long-chain", root), cls=["long-chain", f"requests={w.n_req}"])
+
+
 def hyp_shard(acc, n, seed, maxlen):
     run_given(walk, lambda x: run_walk(acc, x[0], x[1], x[2], x[3], maxlen), n, seed)
 
@@ -338,13 +371,16 @@ def EXHAUSTIVE(tier):
 
 
 def plan(tier, seed):
-    jobs = [("dfs_shard", {"depth": DEPTH[tier], "part": i, "parts": 3}) for i in range(3)]
+    jobs = [("dfs_shard", {"depth": DEPTH[tier], "part": i, "parts": 3}) for i in range(3)] + [("long_chain", {})]
     n, k = (700, 8) if tier == "quick" else (20000, 13)
     jobs += [("hyp_shard", {"n": n, "seed": derive_seed(seed, PROPERTY, i), "maxlen": WALK[tier]}) for i in range(k)]
     return jobs
 
 
 def replay(acc, case):
+    if "long_chain" in case:
+        long_chain(acc)
+        return
     if "steps" in case:
         run_walk(acc, case["root"], case["price"], case["qty"], [tuple(s) for s in case["steps"]], len(case["steps"]))
         return
